@@ -154,10 +154,43 @@ def run_public(case, failures, hsh):
     count_list = case.get('counts') or [list(c) for c in itertools.product(COUNTS, repeat=n)]
     cats = {}
     plan = [(r_, 'plain') for r_ in case['rates']] + [(r_, 'array-scaled') for r_ in case['rates'][::2]]
+    # the SAME forecast object evaluated before with other rates of the same shape and the same total (the rates in reverse
+    # order), then given the rates of the case in place: every test must report the values of the rates it is called with
+    plan += [(r_, 'reused') for r_ in case['rates'][1::2]]
+    if case.get('fvar'):
+        plan = [(r_, case['fvar']) for r_ in case['rates']]        # replay of one stored failure
     for rates, fvar in plan:
         data = numpy.array(rates, dtype=float).reshape(nc, nm)
         if fvar == 'plain':
             fc = fixtures.gridded_forecast(data, reg, mags)
+        elif fvar == 'reused':
+            # previous rates: two positive cells i, j exchanged (same multiset, same total); the rates of the case are then
+            # reached in place through the public scale(<ndarray>) with factors r_i/r_j and r_j/r_i when that is exact in floats
+            built = False
+            posc = [k for k in range(n) if rates[k] > 0]
+            for i_, j_ in itertools.combinations(posc, 2):
+                if rates[i_] == rates[j_]:
+                    continue
+                pr = list(rates)
+                pr[i_], pr[j_] = pr[j_], pr[i_]
+                f_ = numpy.ones(n)
+                f_[i_], f_[j_] = rates[i_] / rates[j_], rates[j_] / rates[i_]
+                if pr[i_] * f_[i_] != rates[i_] or pr[j_] * f_[j_] != rates[j_]:
+                    continue
+                fc = fixtures.gridded_forecast(numpy.array(pr, dtype=float).reshape(nc, nm), reg, mags)
+                warm = fixtures.catalog(fixtures.events_from_counts(numpy.array([1] + [0] * (n - 1)).reshape(nc, nm), origins, mags), region=reg)
+                for fn_ in (be.binary_spatial_test, be.binary_conditional_likelihood_test, br.brier_score_test):
+                    try:
+                        with env.scripted_random(env.Script(uniforms=[0.5] * 64)):
+                            fn_(fc, warm, num_simulations=1, seed=None)
+                    except Exception:
+                        pass      # the warm-up is only history; its own outcome is judged by the plain variant of those rates
+                fc.scale(f_.reshape(nc, nm))
+                built = numpy.array_equal(numpy.asarray(fc.data), data)
+                if built:
+                    break
+            if not built:
+                continue          # no exact exchange exists for these rates
         else:
             # the same rates reached through scale(<per-cell ndarray of shape (n_cells, 1)>), powers of two (exact)
             a_ = numpy.array([[2.0, 0.5, 4.0, 0.25][c % 4] for c in range(nc)]).reshape(nc, 1)
@@ -181,9 +214,11 @@ def run_public(case, failures, hsh):
                     vc = [int(x) for x in cnt.ravel()]
                 nact = sum(1 for w in vc if w > 0)
                 npos = sum(1 for l in vr if l > 0)
-                cls = cls_of(vr, vc) + (',forecast-scaled-by-a-per-cell-array' if fvar != 'plain' else '')
+                cls = cls_of(vr, vc) + {'plain': '', 'array-scaled': ',forecast-scaled-by-a-per-cell-array', 'reused': ',forecast-object-evaluated-before-with-other-rates'}[fvar]
                 site = f'{mod.__name__.split(".")[-1]}.{fn.__name__}'
                 rep = dict(kind='public', shape=case['shape'], rates=[rates], counts=[counts])
+                if fvar == 'reused':
+                    rep['fvar'] = fvar
                 simulate = nact <= npos
                 mids = rs.midpoints(vr)
                 script = [mids[i % len(mids)] for i in range(4 * len(mids))]
